@@ -286,6 +286,7 @@ func (c *Cluster) WaitQuiesced(ctx context.Context, streak int, timeout time.Dur
 	_, _, last, _ := c.Net.Counters()
 	for {
 		quiet := true
+		var still []string
 		for i, n := range c.Nodes {
 			if !n.Up {
 				continue
@@ -296,10 +297,14 @@ func (c *Cluster) WaitQuiesced(ctx context.Context, streak int, timeout time.Dur
 			}
 			if len(ops) > 0 {
 				quiet = false
+				for _, op := range ops {
+					still = append(still, fmt.Sprintf("node%d:%s@v%d", i+1, op.Key, int64(op.Version)))
+				}
 			}
 		}
 		_, _, now, _ := c.Net.Counters()
-		if now != last {
+		moved := now != last
+		if moved {
 			quiet = false
 		}
 		last = now
@@ -312,7 +317,10 @@ func (c *Cluster) WaitQuiesced(ctx context.Context, streak int, timeout time.Dur
 			run = 0
 		}
 		if time.Now().After(deadline) {
-			return fmt.Errorf("no quiescence within %s", timeout)
+			if len(still) > 12 {
+				still = still[:12]
+			}
+			return fmt.Errorf("no quiescence within %s (still infected: %v; op messages moving: %v)", timeout, still, moved)
 		}
 		time.Sleep(spacing)
 	}
